@@ -227,6 +227,7 @@ def run(chk):
 
     chk.rule("R5", "tests of a source dtype against concrete types in cast compilation / validation are made on without_const(..) of it")
 
+    chk.rule("R6w", "PostgresImpl.cast_compiled(strict=False) interpreted as a whole for every numeric (source, target) pair incl. width-less and Const types: builds an expression")
     chk.rule("R6", "type-level helper functions of the cast compilers are total over the int / float family that reaches them (interpreted from source)")
 
     ce, func, accepted, sources, targets = accepted_by_interpretation(chk, m)
@@ -424,15 +425,63 @@ def _type_helpers(chk, m, valid_pairs):
                 it = Interp(mod, env)
                 fn = Func(h, env, it)
                 bad = []
-                for t in fam:
-                    try:
-                        it.call(fn, [t], {}, c, env)
-                    except PyRaise as p:
-                        bad.append((t, p.name, p.msg))
+                try:
+                    for t in fam:
+                        try:
+                            it.call(fn, [t], {}, c, env)
+                        except PyRaise as p:
+                            bad.append((t, p.name, p.msg))
+                except AnalysisError as e:
+                    # the helper reads module-level state or calls something the local interpretation does not model: the whole
+                    # compiler is interpreted by R6w instead
+                    chk.note(f"R6: helper `{c.func.id}` of {q} not interpreted on its own ({str(e)[:100]}); covered by R6w")
+                    continue
                 chk.ob("R6", mod, c, f"{q}: {c.func.id}({atext}) is defined for all {len(fam)} types that reach it", not bad,
                        f"`{c.func.id}({atext})` fails for {len(bad)} of the {len(fam)} types that can reach it, e.g. {bad[0][0]!r} -> {bad[0][1]}: {bad[0][2]} "
                        "(a constant operand carries a Const wrapper, `pdt.Int()` has no width in its class name): the cast dies with an internal error at compile time" if bad else "")  # fmt: skip
     chk.floor("R6", "type-level helper call sites interpreted", n_helpers, 2)
+    _cast_compiled_total(chk, m, ints, floats)
+
+
+def _cast_compiled_total(chk, m, ints, floats):
+    """R6w: the non-strict cast compilers interpreted as a whole (program.Program, SQLAlchemy symbolic) for every numeric
+    (source, target) pair incl. the width-less `Int` / `Float` and Const operands: they must build an expression, not die"""
+    from ..catalogue import DT
+    from ..interp import Native, Obj, PyRaise, SymbolicBranch, Term, Var
+    from ..program import Program
+
+    prog = Program(chk.repo, m_types_env(m), primary="backend.postgres")
+    n = 0
+    for short, cname in (("backend.postgres", "PostgresImpl"),):
+        try:
+            mod = chk.repo.mod(short)
+            cls_ = prog.env_of(mod)[cname]
+            f = cls_.methods.get("cast_compiled")
+            if f is None or f.owner is not cls_:
+                continue
+            bad = []
+            srcs = ints + floats
+            for s_ in srcs + [DT("Const", t) for t in (DT("Int64"), DT("Int"), DT("Float64"))]:
+                for t_ in ints:
+                    self_cls = Obj(cls_)
+                    self_cls.attrs.update({
+                        "sqa_type": Native(lambda t: Var(f"sqltype:{t!r}"), "cls.sqa_type"), "nan": Native(lambda: Var("nan"), "cls.nan"), "inf": Native(lambda: Var("inf"), "cls.inf"),
+                    })  # fmt: skip
+                    val = prog.new("tree.col_expr", "Col", name="c", _ast=None, _uuid="u", _dtype=s_, _ftype=None)
+                    cast = prog.new("tree.col_expr", "Cast", val=val, target_type=t_, strict=False, _dtype=None, _ftype=None)
+                    n += 1
+                    try:
+                        r = prog.call(f.bind(self_cls), [cast, Var("expr")])
+                        if not isinstance(r, (Term, Var)):
+                            bad.append((s_, t_, f"returns {r!r}"))
+                    except PyRaise as p_:
+                        bad.append((s_, t_, f"{p_.name}: {p_.msg}"))
+            chk.ob("R6w", mod, f.node, f"{cname}.cast_compiled(strict=False) builds an expression for all {n} numeric (source, target) pairs", not bad,
+                   f"{cname}.cast_compiled(strict=False) fails for {len(bad)} of {n} numeric type pairs, e.g. {bad[0][0]!r} -> {bad[0][1]!r}: {bad[0][2]} "
+                   "(computed integers carry the width-less `Int`, constants a Const wrapper): the cast dies with an internal error at compile time" if bad else "")  # fmt: skip
+        except (AnalysisError, SymbolicBranch, KeyError) as e:
+            chk.undecided.append(f"R6w: {cname}.cast_compiled could not be interpreted ({str(e)[:140]})")
+    chk.floor("R6w", "non-strict casts interpreted", n, 100)
 
 
 def m_types_env(m):
